@@ -76,6 +76,38 @@ func runC10(c *core.Ctx) {
 	for _, t := range all {
 		seqRule(c, t)
 	}
+	// a getter on the shared Header type is a sibling of the PDUs' own getters: it returns the same header word
+	for _, rel := range []string{"cmpp", "smgp", "smpp", "sgip"} {
+		get := c.Prog.LookupMethod(rel, "Header", "GetSequenceID")
+		if get == nil {
+			continue
+		}
+		key := rel + ".Header.GetSequenceID"
+		gx := &symExec{prog: c.Prog, recv: recvObj(c.Prog, get)}
+		gv := gx.run(get, nil)
+		var problems []string
+		n := 0
+		if gv.kind != sField {
+			problems = append(problems, "it does not return a field of the header: "+gv.String())
+		} else {
+			for _, t := range all {
+				if t.Rel != rel && !strings.HasPrefix(t.Rel, rel+"/") {
+					continue
+				}
+				if t.seqChain == "" {
+					continue
+				}
+				n++
+				if t.seqChain != gv.chain && !strings.HasSuffix(t.seqChain, "."+gv.chain) {
+					problems = append(problems, fmt.Sprintf("it returns %s while %s.GetSequenceID returns %s", gv.chain, t.Key(), t.seqChain))
+				}
+			}
+			if n == 0 {
+				problems = append(problems, "no PDU of the package to compare with")
+			}
+		}
+		c.Decide(len(problems) == 0, "C10-SEQ", key, c.Prog.Pos(get.Pos()), fmt.Sprintf("returns %s, the word the getters of the package's %d PDU types return", gv.chain, n), "the header's own getter disagrees with the PDUs: "+strings.Join(dedup(problems), "; "))
+	}
 	for _, t := range all {
 		respRule(c, t, byNamed)
 	}
